@@ -141,6 +141,7 @@ Range(a, b, s) == [k |-> "range", a |-> a, b |-> b, s |-> s]
 NewAxis        == [k |-> "newaxis"]
 Ellipsis       == [k |-> "ellipsis"]
 Arr(is)        == [k |-> "arr", is |-> is]           \* 1-d integer array
+Arr2(is, cols) == [k |-> "arr2", is |-> is, cols |-> cols]   \* 2-d integer array of shape (Len(is) \div cols, cols), row-major
 Missing(is)    == [k |-> "missing", is |-> is]       \* entries: integers, or NoBound for None
 Jagged(js)     == [k |-> "jagged", js |-> js]        \* one sub-index (seq of ints) per list
 Field(key)     == [k |-> "field", key |-> key]
@@ -158,7 +159,7 @@ RangeIdx(n, a, b, s) ==
                         ELSE (IF start > stop THEN (start - stop - s - 1) \div (-s) ELSE 0)
   IN [k \in 1..cnt |-> start + (k - 1) * s]
 
-IsPositional(it) == it.k \in {"at", "range", "arr", "missing", "jagged"}
+IsPositional(it) == it.k \in {"at", "range", "arr", "arr2", "missing", "jagged"}
 IsArrLike(it) == it.k \in {"arr", "missing"}
 IsAdv(it) == it.k \in {"arr", "at", "missing"}
 RECURSIVE AdvPrefix(_)
@@ -224,6 +225,14 @@ VGet(v, items) ==
          IF h.s = 0 THEN Err
          ELSE LET idx == RangeIdx(n, h.a, h.b, h.s) IN
               Lift([k \in 1..Len(idx) |-> VGet(v.xs[idx[k] + 1], t)])
+    [] h.k = "arr2" ->
+         \* a 2-d index array (alone among ranges): NumPy gives, for each row of the index, what the row gives as a
+         \* 1-d index: index with the flattened array and cut the result into rows of `cols`
+         IF HasAdv(t) \/ (\E q \in 1..Len(t) : t[q].k \in {"arr2", "jagged"}) THEN Unspec
+         ELSE LET flat == VGet(v, <<Arr(h.is)>> \o t) IN
+              IF flat.ok # 1 THEN flat
+              ELSE LET rows == Len(h.is) \div h.cols IN
+                   Ok(VList([r \in 1..rows |-> VList(SubSeq(flat.v.xs, (r - 1) * h.cols + 1, r * h.cols))]))
     [] h.k = "at" /\ ~HasArr(items) -> VWalk(v, <<h.i>>, t)
     [] h.k \in {"at", "arr", "missing"} ->          \* advanced block, NumPy pairing
          LET block == AdvPrefix(items)
@@ -305,7 +314,7 @@ StaticOk(T, items) ==
     [] T.k \in {"var", "reg"} ->
          (CASE h.k = "at" -> InReg(T, h.i) /\ StaticOk(T.x, t)
             [] h.k = "range" -> StaticOk(T.x, t)
-            [] h.k = "arr" -> (\A j \in 1..Len(h.is) : InReg(T, h.is[j])) /\ StaticOk(T.x, t)
+            [] h.k \in {"arr", "arr2"} -> (\A j \in 1..Len(h.is) : InReg(T, h.is[j])) /\ StaticOk(T.x, t)
             [] h.k = "missing" -> (\A j \in 1..Len(h.is) : h.is[j] = NoBound \/ InReg(T, h.is[j])) /\ StaticOk(T.x, t)
             [] h.k = "jagged" ->
                  LET U == IF T.x.k = "opt" THEN T.x.x ELSE T.x IN
